@@ -211,6 +211,9 @@ def generate(run_seed):
     if any("include" in l for l in links) and rng.random() < 0.4:
         # the included file is not there yet: finalize fails, the file appears, everything works
         script.append("finalize_include_missing")
+    frng = seeds.Streams(run_seed).get("cache-fault")
+    if any("include" in l for l in links) and frng.random() < 0.3:
+        script.append("finalize_cache_unusable")
     script.append("finalize")
     for _ in range(rng.randint(1, 6)):
         script.append(rng.choice(["clean", "finalize", "clean", "save_check", "restart", "cycle",
@@ -431,6 +434,30 @@ def run_case(case):
                         # links that were resolved before the include failed are unresolved again;
                         # nothing of the failed attempt may stand in the way of the next finalize
                         base = W.tree(W.doc)
+                elif op == "finalize_cache_unusable":
+                    # a fault at the download cache: a plain file sits where the cache directory
+                    # should be while finalize runs; once it is gone nothing of the failed attempt
+                    # may stand in the way of the next finalize (a loader that died, a table entry)
+                    if not resolved:
+                        import tempfile
+                        cache = os.path.join(tempfile.gettempdir(), "odml.cache")
+                        aside = cache + ".aside"
+                        if os.path.isdir(cache):
+                            os.rename(cache, aside)
+                        if not os.path.exists(cache):
+                            with open(cache, "w") as fobj:
+                                fobj.write("not a directory")
+                            try:
+                                try:
+                                    W.doc.finalize()
+                                except Exception:
+                                    pass
+                                W.doc.clean()
+                            finally:
+                                os.remove(cache)
+                                if os.path.isdir(aside):
+                                    os.rename(aside, cache)
+                            base = W.tree(W.doc)
                 elif op == "grow_target":
                     picks = [(lk, tgt) for lk, tgt, kind in lks if kind == "link" and tgt is not None]
                     if picks:
